@@ -32,6 +32,14 @@ EXTRA_OPS = [
     ("set_attr", "rxn", "r1", "subsystem", "S9"), ("set_attr", "gene", "g1", "name", "gene one"),
     ("set_attr", "model", None, "name", "renamed model"), ("pfba",), ("fva",),
 ]
+# operations of one model that are handed an object of the other one (the same id exists in both, or - after an earlier
+# step - only in the other): the actor must end up with objects of its own
+FOREIGN_OPS = [
+    ("foreign_add_mets", "r1", "C", 1), ("foreign_add_mets", "r1", "X", 1), ("foreign_add_mets", "r2", "B", 2),
+    ("foreign_iadd", "r1", "r2"), ("foreign_remove_rxns", "r2"),
+    # (remove_metabolites is documented for metabolite objects of the model itself: a foreign object there is a caller
+    # error - the first version of this menu had it and it edits the other model's reactions - not part of the menu)
+]
 
 PREFIXES = [(), (("add_rxns", ("r3",)),), (("remove_rxns", (("obj", "r1"),), False),),
             (("rule", "r1", "g1 or g3"),), (("gene_ko", "g1"),), (("add_cons_vars", "uv2"),),
@@ -51,10 +59,30 @@ def _target(S, kind, ident):
     return lst.get_by_id(ident)
 
 
-def apply_any(S, op):
+def apply_any(S, op, other=None):
     k = op[0]
     m = S.model
-    if k == "set_compartments":
+    if k.startswith("foreign_"):
+        om = other.model
+        if k == "foreign_add_mets":
+            if op[2] not in om.metabolites:
+                raise bench.Disabled(op[2])
+            S.rxn(op[1]).add_metabolites({om.metabolites.get_by_id(op[2]): op[3]})
+        elif k == "foreign_iadd":
+            if op[2] not in om.reactions:
+                raise bench.Disabled(op[2])
+            r = S.rxn(op[1])
+            r += om.reactions.get_by_id(op[2])
+        elif k == "foreign_remove_rxns":
+            if op[1] not in om.reactions:
+                raise bench.Disabled(op[1])
+            S.rxn(op[1])
+            m.remove_reactions([om.reactions.get_by_id(op[1])])
+        elif k == "foreign_remove_mets":
+            if op[1] not in om.metabolites or op[1] not in m.metabolites:
+                raise bench.Disabled(op[1])
+            m.remove_metabolites([om.metabolites.get_by_id(op[1])])
+    elif k == "set_compartments":
         m.compartments = dict(op[1])
     elif k == "annot":
         _target(S, op[1], op[2]).annotation[op[3]] = op[4]
@@ -228,7 +256,7 @@ def run_case(interface, prefix, mech, steps):
         try:
             with warnings.catch_warnings():
                 warnings.simplefilter("ignore")
-                apply_any(actor, op)
+                apply_any(actor, op, other)
         except bench.Disabled:
             continue
         except Exception:
@@ -395,7 +423,7 @@ def replay(case):
 
 def enumerate_cases(tier):
     base = [o for o in bench.alphabet(tier) if o[0] not in ("h_copy", "h_deepcopy", "h_pickle", "h_json", "h_sbml", "exit_exc")]
-    ops = base + EXTRA_OPS
+    ops = base + EXTRA_OPS + FOREIGN_OPS
     for prefix in PREFIXES:
         yield ("objcopy", prefix)
         for mech in MECHS:
@@ -409,6 +437,13 @@ def enumerate_cases(tier):
                                                    "remove_cons_vars", "solver", "exit", "set_id", "merge")]
     pre2 = [(), (("enter",), ("lb", "r1", 2))] if tier == "quick" else PREFIXES
     second = small if tier != "quick" else small[::2]
+    # an object of the other model whose id the acting model does not (or no longer) have
+    structural = [o for o in base if o[0] in ("add_model_mets", "remove_mets", "remove_rxns", "add_rxns", "set_id")]
+    for mech in MECHS:
+        for a in structural:
+            for b in FOREIGN_OPS:
+                for sides in (("o", "c"), ("c", "o"), ("c", "c"), ("o", "o")):
+                    yield ((), mech, ((sides[0], a), (sides[1], b)))
     for prefix in pre2:
         for mech in MECHS:
             for a in small:
